@@ -36,25 +36,25 @@ theorem mergeOut_spec (sc : Scale Rat) (hsc : ScaleOK sc) (tun : Tun) (s : St Ra
     simp at hsw hcw; omega
   -- the cluster call, with casts in the shape the cluster lemmas expect
   set kc : Rat := (Num.ofNat (tun.comprMul * s.k) : Rat) with hkc
-  have hout : cluster sc kc (Num.ofNat (s.cw + weight) : Rat) true x (Num.ofNat 0 : Rat) xs
-      = cluster sc kc ((s.cw + weight : Nat) : Rat) true x ((0 : Nat) : Rat) xs := rfl
-  have hlast : (cluster sc kc ((s.cw + weight : Nat) : Rat) true x ((0 : Nat) : Rat) xs).getLast? = (x :: xs).getLast? := by
+  have hout : cluster tun.caddSafe sc kc (Num.ofNat (s.cw + weight) : Rat) true x (Num.ofNat 0 : Rat) xs
+      = cluster tun.caddSafe sc kc ((s.cw + weight : Nat) : Rat) true x ((0 : Nat) : Rat) xs := rfl
+  have hlast : (cluster tun.caddSafe sc kc ((s.cw + weight : Nat) : Rat) true x ((0 : Nat) : Rat) xs).getLast? = (x :: xs).getLast? := by
     by_cases hnil : xs = []
     · subst hnil; simp [cluster]
-    · rw [cluster_getLast sc kc hsc (s.cw + weight) xs true x 0 hnil hposx hposxs hcw']
+    · rw [cluster_getLast tun.caddSafe sc kc hsc (s.cw + weight) xs true x 0 hnil hposx hposxs hcw']
       exact (getLast?_cons_ne x xs hnil).symm
-  have hhead := cluster_head sc kc ((s.cw + weight : Nat) : Rat) xs x ((0 : Nat) : Rat)
+  have hhead := cluster_head tun.caddSafe sc kc ((s.cw + weight : Nat) : Rat) xs x ((0 : Nat) : Rat)
   have hlo : ∀ lo : Rat, (∀ c ∈ tmp ++ s.cs, lo ≤ c.mean) →
-      ∀ c ∈ cluster sc kc ((s.cw + weight : Nat) : Rat) true x ((0 : Nat) : Rat) xs, lo ≤ c.mean := by
+      ∀ c ∈ cluster tun.caddSafe sc kc ((s.cw + weight : Nat) : Rat) true x ((0 : Nat) : Rat) xs, lo ≤ c.mean := by
     intro lo h
-    exact cluster_lo sc kc _ lo xs true x _ (h x ((hmemL x).1 (List.mem_cons_self ..)))
+    exact cluster_lo tun.caddSafe sc kc _ lo xs true x _ (h x ((hmemL x).1 (List.mem_cons_self ..)))
       (fun c hc => h c ((hmemL c).1 (List.mem_cons_of_mem _ hc)))
   have hhi : ∀ hi : Rat, (∀ c ∈ tmp ++ s.cs, c.mean ≤ hi) →
-      ∀ c ∈ cluster sc kc ((s.cw + weight : Nat) : Rat) true x ((0 : Nat) : Rat) xs, c.mean ≤ hi := by
+      ∀ c ∈ cluster tun.caddSafe sc kc ((s.cw + weight : Nat) : Rat) true x ((0 : Nat) : Rat) xs, c.mean ≤ hi := by
     intro hi h
-    exact cluster_hi sc kc _ hi xs true x _ (h x ((hmemL x).1 (List.mem_cons_self ..)))
+    exact cluster_hi tun.caddSafe sc kc _ hi xs true x _ (h x ((hmemL x).1 (List.mem_cons_self ..)))
       (fun c hc => h c ((hmemL c).1 (List.mem_cons_of_mem _ hc)))
-  have hp := cluster_pos sc kc ((s.cw + weight : Nat) : Rat) xs true x ((0 : Nat) : Rat) hposx hposxs
+  have hp := cluster_pos tun.caddSafe sc kc ((s.cw + weight : Nat) : Rat) xs true x ((0 : Nat) : Rat) hposx hposxs
   unfold mergeOut
   simp only [← hkc, hout]
   unfold mergeSeq at hseq
@@ -62,7 +62,7 @@ theorem mergeOut_spec (sc : Scale Rat) (hsc : ScaleOK sc) (tun : Tun) (s : St Ra
   · -- forward merge
     simp only [hrev, Bool.false_eq_true, if_false] at hseq ⊢
     have hs : Sorted (x :: xs) := hseq ▸ stableSort_sorted _
-    refine ⟨cluster_sorted sc kc _ xs true x _ hs, ?_, ?_, hp, hlo, hhi⟩
+    refine ⟨cluster_sorted tun.caddSafe sc kc _ xs true x _ hs, ?_, ?_, hp, hlo, hhi⟩
     · rw [hhead, ← head?_stableSort, hseq]; rfl
     · rw [hlast, ← getLast?_stableSort, hseq]
   · -- reverse merge
@@ -73,7 +73,7 @@ theorem mergeOut_spec (sc : Scale Rat) (hsc : ScaleOK sc) (tun : Tun) (s : St Ra
       have := (stableSort_sorted (tmp ++ s.cs)).reverse_ge
       rw [hseq] at this
       exact this
-    have hD := cluster_sortedD sc kc ((s.cw + weight : Nat) : Rat) xs true x ((0 : Nat) : Rat) hsD
+    have hD := cluster_sortedD tun.caddSafe sc kc ((s.cw + weight : Nat) : Rat) xs true x ((0 : Nat) : Rat) hsD
     refine ⟨?_, ?_, ?_, ?_, ?_, ?_⟩
     · unfold Sorted
       rw [List.pairwise_reverse]
